@@ -67,7 +67,7 @@ FWhile(c, s) == [k |-> "while", c |-> c, s |-> s]
 FMod(m, start, n, u, c) == [k |-> "mod", m |-> m, start |-> start, n |-> n, u |-> u, c |-> c]
 FIdle == [k |-> "idle"]
 FShuf(items, sk) == [k |-> "shuf", items |-> items, sk |-> sk]   \* sk: the items are scenarios (compose block)
-FPar(subs) == [k |-> "par", subs |-> subs]      \* `do S1, S2` in a compose block: the running sub-scenario instances
+FPar(keys) == [k |-> "par", keys |-> keys]      \* `do S1, S2` in a compose block: the keys of the sub-scenario instances it steps
 FTry(hs) == [k |-> "try", hs |-> hs, act |-> 0, saved |-> [i \in 0..Len(hs) |-> <<>>], began |-> {}]
 
 \* a coroutine: control stack, events emitted during the current resume, signal
@@ -76,10 +76,13 @@ FTry(hs) == [k |-> "try", hs |-> hs, act |-> 0, saved |-> [i \in 0..Len(hs) |-> 
 \*   guessed by the enclosing action, their weights logged in `wl` (see AskPick)
 \*   d: (object coroutines) the behaviour definition the object was created with, 0 for none;
 \*   own: the id of the sub-scenario instance whose setup block created the object (0: the top-level scenario)
+\*   kids/nk: (compose blocks, while they run) the scenario's running sub-scenario instances, in the order they
+\*   were invoked, and the number of keys handed out; between steps they are kept in the instance record
 \*   n/new: (compose blocks) the number of objects existing so far and the behaviour definitions of the objects
 \*   created during the current resume by the setup blocks of the sub-scenarios it invoked
 NewCor(st) == [st |-> st, out |-> <<>>, sig |-> "run", acts |-> <<>>, chk |-> FALSE, opts |-> <<>>, pk |-> "none",
-               om |-> FALSE, orc |-> <<>>, wl |-> <<>>, d |-> 0, own |-> 0, n |-> 0, new |-> <<>>]
+               om |-> FALSE, orc |-> <<>>, wl |-> <<>>, d |-> 0, own |-> 0, n |-> 0, new |-> <<>>,
+               kids |-> <<>>, nk |-> 0]
 NewCorO(st) == [NewCor(st) EXCEPT !.om = TRUE]
 OrcFail == {"orcshort", "orcbad"}    \* the guessed script is too short / names an alternative that does not exist
 
@@ -198,11 +201,25 @@ Sdef(q, s) == Cases[q].sdefs[s]
 NewMon(q, d) == NewCorO(<<FBeh(d), FSeq(Def(q, d).body)>>)
 NewInst(q, s) ==
   [s |-> s, el |-> 0, on |-> TRUE, id |-> 0,     \* id: the number of the first object it created (0 if none)
+   key |-> 0, kids |-> <<>>, nk |-> 0,           \* key: its key among its parent's sub-scenarios; kids: its own sub-scenarios
    cor |-> IF Sdef(q, s).hascompose THEN NewCorO(<<FSeq(Sdef(q, s).compose)>>) ELSE Sig(NewCor(<<>>), "done"),
    mons |-> [i \in 1..Len(Sdef(q, s).monitors) |-> NewMon(q, Sdef(q, s).monitors[i])]]
-StopInst(I) == [I EXCEPT !.on = FALSE, !.mons = <<>>, !.cor = Sig(NewCor(<<>>), "done")]
-SubsOf(I) == IF I.cor.st # <<>> /\ Top(I.cor).k = "par" THEN Top(I.cor).subs ELSE <<>>
-SetSubs(I, subs) == [I EXCEPT !.cor = SetTop(I.cor, [Top(I.cor) EXCEPT !.subs = subs])]
+StopInst(I) == [I EXCEPT !.on = FALSE, !.mons = <<>>, !.cor = Sig(NewCor(<<>>), "done"), !.kids = <<>>]
+(* The running sub-scenarios of an instance form ONE list, in invocation order, whichever statement of  *)
+(* the compose block invoked them: a `do` whose block is suspended by a try/interrupt handler keeps its   *)
+(* sub-scenarios there (their monitors, records and terminate-simulation-when conditions go on; their     *)
+(* compose blocks and limits are stepped only by the `do` that invoked them, when it runs).  A "par"      *)
+(* frame holds the keys of the instances it steps.  When the frames of a `do` are dropped (abort, break,  *)
+(* return, a do-for/until limit) its sub-scenarios are stopped: KeepKids.                                 *)
+SubsOf(I) == I.kids
+SetSubs(I, subs) == [I EXCEPT !.kids = subs]
+RECURSIVE RefKeys(_)
+RefKeys(st) == IF st = <<>> THEN {}
+               ELSE LET f == Head(st) IN
+                    (IF f.k = "par" THEN {f.keys[i] : i \in 1..Len(f.keys)}
+                     ELSE IF f.k = "try" THEN UNION {RefKeys(f.saved[i]) : i \in DOMAIN f.saved}
+                     ELSE {}) \cup RefKeys(Tail(st))
+KeepKids(c) == [c EXCEPT !.kids = SelectSeq(c.kids, LAMBDA K : K.on /\ K.key \in RefKeys(c.st))]
 \* `terminate` executed by a behaviour ends the scenario that created its agent, if that is still running
 RECURSIVE StopById(_, _)
 StopById(I, x) == IF ~I.on THEN I
@@ -217,7 +234,8 @@ StopById(I, x) == IF ~I.on THEN I
 (* the scenario that created them ends.                                                               *)
 RECURSIVE StartSubsFrom(_, _, _, _, _, _)
 StartSubsFrom(q, c, ss, i, insts, tt) ==
-  IF i > Len(ss) THEN Push(c, FPar(insts))
+  IF i > Len(ss) THEN Push([c EXCEPT !.kids = c.kids \o insts, !.nk = c.nk + Len(insts)],
+                           FPar([j \in 1..Len(insts) |-> insts[j].key]))
   ELSE LET d == Sdef(q, ss[i]) IN
        IF ~AllTrue(q, d.pre, tt) THEN Sig(c, "guardpre")
        ELSE LET k == Len(d.objs)
@@ -228,7 +246,8 @@ StartSubsFrom(q, c, ss, i, insts, tt) ==
                THEN LET j == CHOOSE x \in bad : \A y \in bad : x <= y IN
                     Sig(c1, IF AllTrue(q, Def(q, d.objs[j]).pre, tt) THEN "guardinv" ELSE "guardpre")
                ELSE StartSubsFrom(q, c1, ss, i + 1,
-                                  Append(insts, [NewInst(q, ss[i]) EXCEPT !.id = IF k > 0 THEN c.n + 1 ELSE 0]), tt)
+                                  Append(insts, [NewInst(q, ss[i]) EXCEPT !.id = IF k > 0 THEN c.n + 1 ELSE 0,
+                                                                           !.key = c.nk + i]), tt)
 StartSubs(q, c, ss, tt) == StartSubsFrom(q, c, ss, 1, <<>>, tt)
 
 \* ---- random picks
@@ -269,11 +288,15 @@ ScenStep(q, I, tt, orc, n) ==
   IF d.termAfter # <<>> /\ LimitReached(q, I.el, d.termAfter[1], d.termAfter[2])
   THEN [inst |-> StopInst(I), out |-> <<>>, sig |-> "stop", orc |-> orc, wl |-> <<>>, n |-> n, new |-> <<>>]
   ELSE LET I1 == [I EXCEPT !.el = I.el + 1]
-           c0 == [I1.cor EXCEPT !.out = <<>>, !.sig = "run", !.acts = <<>>, !.orc = orc, !.wl = <<>>, !.n = n, !.new = <<>>]
+           c0 == [I1.cor EXCEPT !.out = <<>>, !.sig = "run", !.acts = <<>>, !.orc = orc, !.wl = <<>>, !.n = n, !.new = <<>>,
+                                !.kids = I1.kids, !.nk = I1.nk]
            c == IF d.hascompose
-                THEN (IF I1.cor.sig = "yield" THEN Run(q, Walk(q, c0, 1, tt), tt) ELSE Run(q, c0, tt))
+                THEN KeepKids(IF I1.cor.sig = "yield" THEN Run(q, Walk(q, c0, 1, tt), tt) ELSE Run(q, c0, tt))
                 ELSE I1.cor
-           I2 == [I1 EXCEPT !.cor = [c EXCEPT !.orc = <<>>, !.wl = <<>>, !.n = 0, !.new = <<>>]]
+           I2 == IF d.hascompose
+                 THEN [I1 EXCEPT !.cor = [c EXCEPT !.orc = <<>>, !.wl = <<>>, !.n = 0, !.new = <<>>, !.kids = <<>>, !.nk = 0],
+                                 !.kids = c.kids, !.nk = c.nk]
+                 ELSE I1
            out == IF d.hascompose THEN c.out ELSE <<>>
            left == IF d.hascompose THEN c.orc ELSE orc
            wl == IF d.hascompose THEN c.wl ELSE <<>>
@@ -373,13 +396,21 @@ Micro(q, c, tt) ==
                   ELSE AskPick(q, c, en, IF f.sk THEN "sitems" ELSE "items", tt)
   [] f.k = "try" -> Pop(c)    \* (not reached: blocks are dispatched from the seq case)
   [] f.k = "par" ->   \* sub-scenarios: drop those stopped meanwhile, step the others in order
-        LET r == StepSubs(q, SelectSeq(f.subs, LAMBDA I : I.on), 1, tt, c.orc, c.n)
-            c1 == [c EXCEPT !.out = c.out \o r.out, !.orc = r.orc, !.wl = c.wl \o r.wl, !.n = r.n, !.new = c.new \o r.new]
-        IN IF r.sig # "cont" THEN Sig(SetTop(c1, [f EXCEPT !.subs = r.subs]), r.sig)
+        LET mykeys == {f.keys[i] : i \in 1..Len(f.keys)}
+            r == StepSubs(q, SelectSeq(c.kids, LAMBDA K : K.on /\ K.key \in mykeys), 1, tt, c.orc, c.n)
+            goon == {r.subs[i].key : i \in 1..Len(r.subs)}
+            \* the stepped instances are replaced by their new states; those that ended leave the list
+            Upd(K) == IF K.key \in goon THEN r.subs[CHOOSE i \in 1..Len(r.subs) : r.subs[i].key = K.key] ELSE K
+            kids2 == [i \in 1..Len(c.kids) |-> Upd(c.kids[i])]
+            kids3 == SelectSeq(kids2, LAMBDA K : K.key \notin mykeys \/ K.key \in goon)
+            c1 == [c EXCEPT !.out = c.out \o r.out, !.orc = r.orc, !.wl = c.wl \o r.wl, !.n = r.n, !.new = c.new \o r.new,
+                            !.kids = kids3]
+            f1 == [f EXCEPT !.keys = [i \in 1..Len(r.subs) |-> r.subs[i].key]]
+        IN IF r.sig # "cont" THEN Sig(SetTop(c1, f1), r.sig)
            ELSE IF r.subs = <<>>
                 THEN (LET c2 == Pop(c1) IN
                       IF c2.st # <<>> /\ Top(c2).k = "mod" THEN AfterInvoke(q, Pop(c2), tt) ELSE AfterInvoke(q, c2, tt))
-                ELSE [SetTop(c1, [f EXCEPT !.subs = r.subs]) EXCEPT !.sig = "yield", !.acts = <<>>]
+                ELSE [SetTop(c1, f1) EXCEPT !.sig = "yield", !.acts = <<>>]
 
 Run(q, c, tt) == IF c.sig # "run" THEN c ELSE Run(q, Micro(q, c, tt), tt)
 
@@ -399,7 +430,8 @@ AfterPick(q, c, i, tt) == Run(q, PickStep(q, [c EXCEPT !.out = <<>>], i, tt), tt
 Scripts == UNION {[1..n -> 1..C.orcalt] : n \in 0..C.orcmax}
 NA == Len(C.agents)
 Agents == {a \in 1..NA : C.agents[a] # 0}
-NoInst == [s |-> 0, el |-> 0, on |-> FALSE, id |-> 0, cor |-> Sig(NewCor(<<>>), "done"), mons |-> <<>>]
+NoInst == [s |-> 0, el |-> 0, on |-> FALSE, id |-> 0, key |-> 0, kids |-> <<>>, nk |-> 0,
+           cor |-> Sig(NewCor(<<>>), "done"), mons |-> <<>>]
 
 Init ==
   /\ cid \in 1..NC
@@ -455,7 +487,8 @@ RecEvents(q, I, kd, tt) ==
   LET rs == SelectSeq(Sdef(q, I.s).records, LAMBDA r : r[1] = kd)
   IN [i \in 1..Len(rs) |-> <<"rec", rs[i][2], tt>>] \o RecEventsSeq(q, SubsOf(I), kd, tt)
 RecEventsSeq(q, subs, kd, tt) ==
-  IF subs = <<>> THEN <<>> ELSE RecEvents(q, Head(subs), kd, tt) \o RecEventsSeq(q, Tail(subs), kd, tt)
+  IF subs = <<>> THEN <<>>
+  ELSE (IF Head(subs).on THEN RecEvents(q, Head(subs), kd, tt) ELSE <<>>) \o RecEventsSeq(q, Tail(subs), kd, tt)
 TopRecs(kd) == LET rs == SelectSeq(Sdef(cid, C.top).records, LAMBDA r : r[1] = kd)
                IN [i \in 1..Len(rs) |-> <<"rec", rs[i][2], t>>]
 Record ==
@@ -516,7 +549,7 @@ MonitorResume ==
 RECURSIVE AnyTermSim(_, _, _), AnyTermSimSeq(_, _, _)
 AnyTermSim(q, I, tt) == \/ \E i \in 1..Len(Sdef(q, I.s).termSimWhen) : Tab(q, Sdef(q, I.s).termSimWhen[i], tt)
                         \/ AnyTermSimSeq(q, SubsOf(I), tt)
-AnyTermSimSeq(q, subs, tt) == subs # <<>> /\ (AnyTermSim(q, Head(subs), tt) \/ AnyTermSimSeq(q, Tail(subs), tt))
+AnyTermSimSeq(q, subs, tt) == subs # <<>> /\ ((Head(subs).on /\ AnyTermSim(q, Head(subs), tt)) \/ AnyTermSimSeq(q, Tail(subs), tt))
 TopTermSim == IF top.on THEN AnyTermSim(cid, top, t)
               ELSE \E i \in 1..Len(Sdef(cid, C.top).termSimWhen) : Tab(cid, Sdef(cid, C.top).termSimWhen[i], t)
 TerminationChecks ==
